@@ -317,6 +317,23 @@ def rule_csv_tables(ctx: Ctx) -> RuleResult:
             okp = empty_none
         r.ob(okp, lambda tname=tname: Finding("CS-1", "%s::type_parser{%s-empty}" % (CSV, tname), mt.where(ft),
                                               "None is written as an empty field: the %s parser must map '' back to None" % tname))
+        if pv is not None:
+            # a non-empty field is read back by the constructor of the column's own type (the inverse of the writer's str())
+            pm, pf = pv
+            A0 = ("arg", pm.scopes[pf].params[0])
+            vals = [p.value for p in ctx.fn_paths(pm, pf) if p.outcome == "return" and p.value != ("const", None)]
+            okc = bool(vals) and all(v == ("call", ("builtin", tname), (A0,)) for v in vals)
+            r.ob(okc, lambda tname=tname, vals=vals, pm=pm, pf=pf: Finding(
+                "CS-1", "%s::type_parser{%s-constructor}" % (CSV, tname), pm.where(pf),
+                "a non-empty %s field must be read back with %s(field) (int columns as exact ints, float columns with float()'s round-trip of str()); the parser "
+                "chosen for %s columns returns %s" % (tname, tname, tname, [show(v) for v in vals])))
+    ps = fn_of(parser_for(("const", "str"), ("builtin", "str")))
+    oks = False
+    if ps is not None:
+        A0 = ("arg", ps[0].scopes[ps[1]].params[0])
+        vals = {p.value for p in ctx.fn_paths(ps[0], ps[1])}
+        oks = vals == {A0}
+    r.ob(oks, lambda: Finding("CS-1", "%s::type_parser{str}" % CSV, mt.where(ft), "str fields must be returned unchanged by the parser chosen for str columns"))
     r.require_instances(4)
     return r
 
@@ -768,6 +785,10 @@ def _cfg_of_path(p, names):
     return out
 
 
+def _is_param(t, name):
+    return t is not None and t[0] in ("param", "arg") and t[1] == name
+
+
 def rule_ag7(ctx: Ctx) -> RuleResult:
     r = RuleResult("AG-7", "JSON lines: load_from_file(lines=True) is the stage-by-stage inverse of dump_to_file for every compression setting")
     m = ctx.program.module(JSON)
@@ -831,6 +852,9 @@ def rule_ag7(ctx: Ctx) -> RuleResult:
             if _stage_id(t) == "rxsci.io.file.write":
                 kw = _kwargs_of(t)
                 r.ob(kw.get("mode") == ("const", "wb"), lambda: Finding("AG-7", "%s{write-mode}" % JSON, md.where(fd), "the file must be written in mode 'wb'"))
+                r.ob(_is_param(kw.get("open_obj"), "open_obj") and _is_param(kw.get("file"), "filename"), lambda kw=kw: Finding(
+                    "AG-7", "%s{write-target}" % JSON, md.where(fd), "file.write must receive the filename and the open_obj function of dump_to_file; it receives file=%s, open_obj=%s" % (
+                        show(kw["file"]) if kw.get("file") else None, show(kw["open_obj"]) if kw.get("open_obj") else "(default open)")))
             if _stage_id(t) == "rxsci.data.codec.encode":
                 kw = _kwargs_of(t)
                 r.ob(set(kw) == {"encoding"} and kw["encoding"][0] in ("param", "arg") and kw["encoding"][1] == "encoding", lambda: Finding(
@@ -869,6 +893,9 @@ def rule_ag7(ctx: Ctx) -> RuleResult:
                 rtable = _table_of(t, rtabs)
         kw = _kwargs_of(src)
         r.ob(kw.get("mode") == ("const", "rb"), lambda: Finding("AG-7", "%s{read-mode}" % JSON, ml.where(fl), "the file must be read in mode 'rb'"))
+        r.ob(_is_param(kw.get("open_obj"), "open_obj") and _is_param(kw.get("file"), "filename"), lambda kw=kw: Finding(
+            "AG-7", "%s{read-source}" % JSON, ml.where(fl), "file.read must receive the filename and the open_obj function of load_from_file; it receives file=%s, open_obj=%s" % (
+                show(kw["file"]) if kw.get("file") else None, show(kw["open_obj"]) if kw.get("open_obj") else "(default open)")))
         for t in stages:
             if _stage_id(t) == "rxsci.data.codec.decode":
                 kw = _kwargs_of(t)
